@@ -123,10 +123,8 @@ def shape_tags(prog, opts, pass_name, it):
         pre = PASS_TAGS.get(pass_name, ())
         tags = [t for t in prog.get("tags", []) if t.startswith(pre)] if pre else []
         tags.append("pass:" + pass_name)
-    if "iterative_simplification" in opts:
-        tags.append("opt:iterative_simplification")
-        if it > 1:
-            tags.append("iter:2+")
+    if "iterative_simplification" in opts and it > 1:
+        tags.append("iter:2+")
     return sorted(set(tags))
 
 
@@ -159,7 +157,8 @@ def rejection_records(prog, opts, rej, mine):
         if observable is None or observable not in mine:
             continue
         pname = rej["ev"] if rej["ev"] in L.PASSES else "detect_aliases"
-        recs.append({"observable": observable, "tags": shape_tags(prog, opts, pname, 1), "exception_type": None,
+        it = 2 if rej["l"] > len(L.PASSES) + 6 else 1
+        recs.append({"observable": observable, "tags": shape_tags(prog, opts, pname, it), "exception_type": None,
                      "detail": "SimplifyTrace rejects the recorded trace at event %d (%s): %s fails | bp=%s opts=%s" % (
                          rej["l"], rej["ev"], f, json.dumps(prog["bp"], sort_keys=True), sorted(opts))})
     return recs
